@@ -806,8 +806,36 @@ impl World {
         rep.executed = true;
         rep.illegal = plan.illegal;
         let mutator = step.is_mutator();
+        // "hot" query pair: directly after a successful mutator and BEFORE the harness observes anything (the
+        // observation itself reads order keys and would refresh every lazily maintained table): the first
+        // evaluation after an edit must give what the second gives
+        let mut hot_fail: Option<Fail> = None;
+        if mutator && matches!(outcome, Outcome::Ok(_)) && !self.cfg.diff_pool.is_empty() && self.successes % 2 == 0 {
+            let q = self.cfg.diff_pool[(self.successes / 2) % self.cfg.diff_pool.len()].clone();
+            let ns = self.cfg.diff_ns.clone();
+            for d in 0..self.real.docs.len() {
+                let dom = self.real.docs[d].dom.clone();
+                let mut c1 = make_ctx(&ns);
+                let (v1, _) = run_query(&dom, &q, &mut c1, d);
+                let mut c2 = make_ctx(&ns);
+                let (v2, _) = run_query(&dom, &q, &mut c2, d);
+                if matches!(v1, QVal::Panic(_)) || matches!(v2, QVal::Panic(_)) {
+                    continue;
+                }
+                if v1 != v2 {
+                    hot_fail = Some(Fail::new(
+                        "C19",
+                        "first-query-after-edit",
+                        format!("query {:?} evaluated twice right after {}: first {:?}, then {:?}", q, step.op_name(), v1, v2),
+                    ));
+                    break;
+                }
+            }
+            rep.probes.push("hot_query_pair_after_edit");
+        }
         let chardata = step.is_chardata();
         let mut fails: Vec<Fail> = vec![];
+        fails.extend(hot_fail);
         let mut stop_model = false;
 
         match &outcome {
@@ -893,6 +921,9 @@ impl World {
             match &outcome {
                 Outcome::Err(..) if mutator => {
                     if let Some(d) = oracle::first_diff(&pre, &post) {
+                        if chardata {
+                            fails.push(Fail::new("C16", "failed-call-changed-data", format!("{} failed but changed the data: {}", step.op_name(), d)));
+                        }
                         fails.push(Fail::new("C13", "failed-call-changed-state", format!("{} failed but changed the document: {}", step.op_name(), d)));
                     } else if !tree_broken && pre_ser != post_ser {
                         fails.push(Fail::new("C13", "failed-call-changed-state", format!("{} failed but the serialisation changed", step.op_name())));
